@@ -151,7 +151,7 @@ def classify(gen, res, unit):
       undec.append({"msg": msg, "at": org, "rendered": rendered})
     else:
       # failure inside hand-written text (lemma / prelude): machinery problem, not a violation
-      undec.append({"msg": "hand-written proof text failed: " + msg, "at": org, "rendered": rendered})
+      undec.append({"msg": "hand-written proof text failed: " + msg, "at": org, "rendered": rendered, "gen_line": ln})
   return fails, undec
 
 
@@ -187,9 +187,42 @@ def run_unit(unit, workdir, seed=0, probes=True, jobs=8):
   if seed:
     args += ["--smt-option", "smt.random_seed=%d" % seed]
   res = run_verus(path, args)
+  # a resource-limit hit decides nothing: retry the affected function alone with a 10x limit so that a false
+  # obligation is reported as a crisp failure (and a slow-but-true one as discharged) instead of "unknown"
+  rl = [d for d in res["diags"] if "rlimit" in (d.get("message") or "")]
+  if rl:
+    fns = set()
+    for d in rl:
+      for sp in d.get("spans", []):
+        if sp.get("is_primary"):
+          fns.add(enclosing_fn(gen, sp["line_start"]))
+    keep = [d for d in res["diags"] if d not in rl]
+    retried = []
+    for fq in sorted(fns):
+      if fq == "?":
+        keep += [d for d in rl]
+        continue
+      big = [a for a in args if a not in ("--rlimit", str(unit.rlimit))] + ["--rlimit", str((unit.rlimit or 10) * 10), "--verify-root", "--verify-function", "*" + fq]
+      r2 = run_verus(path, big, timeout=900)
+      retried.append(fq)
+      if r2["json"] is None:
+        keep += [d for d in rl]
+      else:
+        keep += [d for d in r2["diags"] if not (d.get("message") or "").startswith("verifying root module")]
+        t2 = fn_times(r2["json"])
+        try:
+          for mod in res["json"]["times-ms"]["smt"]["smt-run-module-times"]:
+            mod["function-breakdown"] = [fb for fb in mod.get("function-breakdown", []) if fb["function"] not in t2]
+            mod["function-breakdown"] += [fb for m2 in r2["json"]["times-ms"]["smt"]["smt-run-module-times"] for fb in m2.get("function-breakdown", [])]
+        except Exception:
+          pass
+    res["diags"] = keep
+    res["cmd"] += "  (rlimit x10 retry of: %s)" % ", ".join(retried)
+    out["rlimit_retry"] = retried
   out["cmd"] = res["cmd"]
   out["functions"] = gen.functions
   out["assumed_callees"] = gen.assumed_callees
+  out["skipped_hints"] = gen.skipped_hints
   out["drops"] = gen.drops
   out["trusted_scan"] = scan_trusted(gen.lines)
   out["generated_file"] = path
@@ -217,6 +250,13 @@ def run_unit(unit, workdir, seed=0, probes=True, jobs=8):
     out["obligations"].append({"name": clean, "props": props, "fn": fn, "kind": ob["kind"], "text": ob["text"],
                                "backend": "verus/z3", "verdict": "failed" if clean in failed_names else "discharged",
                                "ms": round(tm[0]["ms"], 1) if tm else None})
+  for lm in gen.lemmas:
+    props, clean = split_props(lm["name"], unit.props)
+    tm = [v for k, v in times.items() if k.endswith("::" + lm["fn"]) or k == lm["fn"]]
+    ok = bool(tm) and all(v.get("success") for v in tm)
+    out["obligations"].append({"name": clean, "props": props, "fn": lm["fn"], "kind": "lemma",
+                               "text": "pure lemma over the contract spec functions (%s)" % lm["src"], "backend": "verus/z3",
+                               "verdict": "discharged" if ok else "undecided", "ms": round(tm[0]["ms"], 1) if tm else None})
   for fdesc in gen.functions:
     alt = "%s.safety" % fdesc["fn"]
     bad = alt in failed_names
